@@ -196,6 +196,20 @@ check('C18', 'E1', 'exploration',
       'is not judged.',
       'DESIGN.md 2/C18')
 
-_PENDING = {'C06': 'check not built yet in this round (planned: bounded exhaustive exploration, see DESIGN.md section 2)', 'C10': 'check not built yet in this round (planned: bounded exhaustive exploration, see DESIGN.md section 2)', 'C11': 'check not built yet in this round (planned: bounded exhaustive exploration, see DESIGN.md section 2)', 'C13': 'check not built yet in this round (planned: bounded exhaustive exploration, see DESIGN.md section 2)', 'C15': 'check not built yet in this round (planned: bounded exhaustive exploration, see DESIGN.md section 2)', 'C19': 'check not built yet in this round (planned: bounded exhaustive exploration, see DESIGN.md section 2)'}
+check('C06', 'E2', 'model_checking',
+      'explicit-state BFS over DOM edit histories on small node pools in lock-step with a list-of-lists model',
+      'Level-synchronous breadth-first search over histories of append / insert (0, mid, len, len+1, -1) / insertBefore / '
+      'insertAfter / replaceChild / removeChild / pop / item and slice assignment / extend / += / fragment insertion / '
+      'normalize / cloneNode(shallow, deep) / setAttribute with a fragment, in six scenarios (plain lists depth 4/6, fragments '
+      '4/5, clone pools 3-4/4-5, an element whose child list is its "self" attribute 3/4, the full design pool 2/3); every '
+      'transition rebuilds fresh plasTeX.DOM objects; judged per transition: result or exception, child lists, attribute maps, '
+      'parentNode of every listed node, ownerDocument; per distinct state: first/lastChild, sibling navigation, textContent, '
+      'getElementsByTagName, allChildNodes, compareDocumentPosition on all ordered pairs, normalize idempotence, deep clones '
+      'equal and disjoint. Dedup key = model dump + implementation pointer dump including stale parents.',
+      'Trusted: vp/refs/dom_tree_c06.py (plain lists/dicts). Four open findings are modelled as named deviation switches '
+      '(shallow clone sharing, stale parentNode of detached nodes, fragment re-parenting, self-fragment parent links).',
+      'DESIGN.md 2/C06')
+
+_PENDING = {'C10': 'check not built yet in this round (planned: bounded exhaustive exploration, see DESIGN.md section 2)', 'C11': 'check not built yet in this round (planned: bounded exhaustive exploration, see DESIGN.md section 2)', 'C13': 'check not built yet in this round (planned: bounded exhaustive exploration, see DESIGN.md section 2)', 'C15': 'check not built yet in this round (planned: bounded exhaustive exploration, see DESIGN.md section 2)', 'C19': 'check not built yet in this round (planned: bounded exhaustive exploration, see DESIGN.md section 2)'}
 for _p, _why in _PENDING.items():
     NOT_APPLICABLE.append({'property_id': _p, 'reason': _why})
